@@ -51,6 +51,8 @@ main(int argc, char** argv)
         st.account(tape.data(), tape.size(), r, false);
         printf("REPLAY %s verdict=%d ntok=%zu nontrivial=%x other_fail=%x excluded=%x sig=%s msg=%s\n", argv[i], r.verdict,
                tape.size(), r.nontrivial, r.other_fail, r.excluded, r.sig, r.msg);
+        if (getenv("VH_SELFTEST"))
+            printf("SELFTEST %s classes=%llx steps=%u hash=%llx\n", argv[i], (unsigned long long)r.classes, r.steps, (unsigned long long)r.hash);
         fflush(stdout);
         if (r.verdict) {
             if (!bad)
